@@ -144,7 +144,7 @@ def c10(c):
     c.std([dict(src='c10_draws.cpp', build='asan', variants=_t_eng_variants(4), shards={'quick': 1, 'thorough': 2}, extra_inc=SHIM, libs=['-pthread'])])
     for k in ('engine_type_pairs_checked', 'synthetic_ranges_checked', 'calls_checked', 'runs', 'runs_with_k>=2', 'scripted_runs', 'scripted_zero_numbers',
               'mpi_runs', 'mpi_calls_checked', 'mpi_stored_generators_checked', 'multi_channel_runs_with_map_dimensions_differing_from_dimensions',
-              'mpi_multi_channel_runs_with_map_dimensions_differing_from_dimensions'):
+              'mpi_multi_channel_runs_with_map_dimensions_differing_from_dimensions', 'vegas_runs_started_from_a_reloaded_never-run_checkpoint'):
         c.require(k)
 
 
@@ -394,7 +394,7 @@ def c20(c):
                    "MPI runs use the in-process shim; per-rank call logs are concatenated in rank order (contiguity is C16's business)"])
 def c19(c):
     c.std([dict(src='c19_state.cpp', build='asan', shards={'quick': 5, 'thorough': 5}, extra_inc=SHIM, libs=['-pthread'])])
-    for k in ('first_states_checked', 'state_transitions_checked', 'coordinates_predicted', 'channels_predicted', 'runs_serial', 'runs_resumed', 'runs_mpi', 'runs_mpi-resumed', 'runs_rolled-back-and-rerun', 'runs_started_from_a_reloaded_never-run_checkpoint'):
+    for k in ('first_states_checked', 'state_transitions_checked', 'coordinates_predicted', 'channels_predicted', 'runs_serial', 'runs_resumed', 'runs_mpi', 'runs_mpi-resumed', 'runs_rolled-back-and-rerun', 'runs_started_from_a_reloaded_never-run_checkpoint', 'rollbacks_of_a_run_that_was_resumed_through_text'):
         c.require(k)
 
 
